@@ -128,6 +128,16 @@ def pairs(D, rng):
                     dict(linear_coefficients=(0.0, 0.0, nu, -xi, -ze), convection_scale=-2.0, **flags)))
         out.append(("KuramotoSivashinskyConservative", dict(convection_scale=0.9, second_order_scale=0.03, fourth_order_scale=0.0004, **flags),
                     "GeneralConvectionStepper", dict(linear_coefficients=(0.0, 0.0, -0.03, 0.0, -0.0004), convection_scale=0.9, **flags)))
+    # the requested dealiasing fraction is part of the configuration: with weaker (or no) dealiasing the forms of the convection term are different
+    # discretisations, and both interfaces must realise the one that was asked for
+    for flags, frac in ((dict(single_channel=False, conservative=False), 1.0), (dict(single_channel=True, conservative=True), 0.85),
+                        (dict(single_channel=True, conservative=False), 0.85), (dict(single_channel=False, conservative=True), 1.0)):
+        out.append(("Burgers", dict(diffusivity=nu, convection_scale=1.3, dealiasing_fraction=frac, **flags), "GeneralConvectionStepper",
+                    dict(linear_coefficients=(0.0, 0.0, nu), convection_scale=1.3, dealiasing_fraction=frac, **flags)))
+    out.append(("KortewegDeVries", dict(diffusivity=nu, convection_scale=-2.0, dispersivity=xi, hyper_diffusivity=ze, dealiasing_fraction=1.0), "GeneralConvectionStepper",
+                dict(linear_coefficients=(0.0, 0.0, nu, -xi, -ze), convection_scale=-2.0, dealiasing_fraction=1.0)))
+    out.append(("KuramotoSivashinsky", dict(gradient_norm_scale=0.7, second_order_scale=0.03, fourth_order_scale=0.0004, dealiasing_fraction=0.85), "GeneralGradientNormStepper",
+                dict(linear_coefficients=(0.0, 0.0, -0.03, 0.0, -0.0004), gradient_norm_scale=0.7, dealiasing_fraction=0.85)))
     out.append(("KuramotoSivashinsky", dict(gradient_norm_scale=0.7, second_order_scale=0.03, fourth_order_scale=0.0004), "GeneralGradientNormStepper",
                 dict(linear_coefficients=(0.0, 0.0, -0.03, 0.0, -0.0004), gradient_norm_scale=0.7)))
     out.append(("FisherKPP", dict(diffusivity=nu, reactivity=1.5), "GeneralPolynomialStepper",
